@@ -4,14 +4,14 @@ import re
 import shutil
 import subprocess
 
-from vlib import env, harness, sut_compiler, sut_py
+from vlib import env, gen, harness, sut_compiler, sut_py
 from vlib.emit import string_literal
 from vlib.monitors import contracts
 
 UPPER = ["ALPHA", "BRAVO", "CARGO", "DELTA", "EMBER", "FLINT", "GAMMA", "HARBOR", "IRIS", "JADE", "KITE", "LUMEN", "METRO", "NOVA", "ORBIT",
          "PIXEL", "QUARTZ", "RIDGE", "SOLAR", "TANGO", "UMBRA", "VECTOR", "WAVE", "XENON", "YARD", "ZEPHYR"]
 STRING_ALPHABET = list("abcXYZ019 _-+*/=<>()[]{}.,:;!@#$%^&|~`") + ["'", '"', "\\", "\n", "\t", "\r", "é", "ß", "中", "文", "😀", " ", "%d", "%s", "//", "/*", "*/",
-                                                                     "?", "?", "??!", "??/", "??=", "??(", "???", "\x00", "\x01", "\x7f", "\x1b"]
+                                                                     "?", "?", "??!", "??/", "??=", "??(", "???", "\x00", "\x01", "\x7f", "\x1b"] + gen.UNICODE_SPECIALS
 
 
 class Node:
